@@ -6,4 +6,5 @@ pub mod swiftness_fri {
 //@include fri/layer.rs
 //@include fri/first_layer.rs
 //@include fri/last_layer.rs
+//@include fri/fri.rs
 } // mod swiftness_fri
